@@ -41,6 +41,8 @@ extern "C" void harness_main() {
   RSForm a;
   a.title = "t" + hard("title-char"); a.alias = "s" + hard("alias-char"); a.comment = hard("comment-char") + "c";
   const auto x1 = a.Emplace(CstType::base);
+  const auto c1 = a.Emplace(CstType::constant);
+  const auto s1 = a.Emplace(CstType::structured, "\xE2\x84\xAC(X1)");
   const auto d1 = a.Emplace(CstType::term, pick(2, "d1-form") ? "X1" : "X1\xE2\x88\xAA" "D" + digit("ref"));
   const auto d2 = a.Emplace(CstType::term, "D" + digit("ref2") + "\\X1");
   const auto a1 = a.Emplace(CstType::axiom, pick(2, "a1-form") ? "D1=D2" : "D1=");
@@ -52,7 +54,10 @@ extern "C" void harness_main() {
     TrackingFlags flags; const int fl = pick(3, "flags"); flags.allowEdit = fl == 1; flags.term = fl >= 1; flags.definition = fl == 2; flags.convention = fl == 1;
     a.Mods().Track(d1, flags);
   }
-  switch (pick(4, "edit")) {
+  switch (pick(7, "edit")) {
+  case 4: (void)a.MoveBefore(s1, a.List().Find(c1)); break;     // reordering attempts across and inside the kind groups
+  case 5: (void)a.MoveBefore(c1, a.List().end()); break;
+  case 6: (void)a.MoveBefore(a1, a.List().Find(d1)); break;
   case 1: a.Erase(d1); break;                                   // leaves D1 as an unused / missing name
   case 2: a.SetAliasFor(d2, "D7", sym_bool("substitute")); break;
   case 3: a.SetExpressionFor(d2, "X1\xE2\x88\xAA"); break;
